@@ -462,6 +462,13 @@ class AbsDict:
         raise Unsupported('len() of a havocked table')
 
 
+class _Undescribed(sym.Abstract):
+    """A value of a table whose values the model does not describe."""
+
+    def __init__(self, name):
+        self.name = name
+
+
 class AbsSet:
     """A set with arbitrary contents (see AbsDict)."""
 
@@ -515,6 +522,28 @@ def install_abs(eng):
                     return d.get(e, k)
                 return df
             return g
+        if name == 'pop':
+            _none = object()
+
+            def pop(k, df=_none):
+                if d.contains(e, k):
+                    ent = d._lookup(e, force(k))
+                    if ent[2] is None and d.value_factory is None:
+                        # a table whose values this model does not describe:
+                        # fine as long as the popped value is not looked at
+                        val = _Undescribed(d.name)
+                    else:
+                        val = d.get(e, k)
+                    ent[1], ent[2] = False, None
+                    return val
+                if df is _none:
+                    raise PyRaise(KeyError(repr(force(k))))
+                return df
+            return pop
+        if hasattr(dict, name):
+            # a dict method this model does not cover: a gap of the model,
+            # not an AttributeError of ddSMT
+            raise Unsupported(f'havocked table: dict.{name} is not modelled')
         raise PyRaise(AttributeError(name))
 
     eng.getattr_handlers[AbsDict] = absdict_attr
@@ -522,6 +551,8 @@ def install_abs(eng):
     def absset_attr(e, s, name):
         if name == 'add':
             return lambda x: s.add(e, x)
+        if hasattr(set, name):
+            raise Unsupported(f'havocked set: set.{name} is not modelled')
         raise PyRaise(AttributeError(name))
 
     eng.getattr_handlers[AbsSet] = absset_attr
